@@ -6,7 +6,7 @@ LEVEL = "translation_validation"
 
 def run(chk):
     th = build("plain")
-    n = 12000 if chk.thorough else 1500
+    n = 60000 if chk.thorough else 1500
     progs = sem.generate(chk.seed, n, canon=True)
     sem.run_real(chk, th, progs)
     bad = [p for p in progs if "run" in p and not p["run"]["ok"]]
